@@ -9,7 +9,8 @@ META = {
                  "subsets x failure classes, laws of the views, and the clusterinfo fan-out machine checked against them for "
                  "every arrival order); every enumerated cluster served by stub nsqd/nsqlookupd to a real nsqadmin child "
                  "process, every /api view compared field by field with the operators' predictions, a crash of the child "
-                 "is an observation; seeded random clusters whose observed views TLC re-computes in AdminViewTrace.tla",
+                 "is an observation; seeded random clusters whose observed views TLC re-computes in AdminViewTrace.tla, once more "
+                 "against an nsqadmin built with the race detector (same verdict rule)",
     "design_ref": "5/C18",
 }
 
